@@ -63,6 +63,39 @@ def _is_cse_ctor(v):
         == "CommonSubexpression"
 
 
+def _guard_kind(v, P):
+    if isinstance(v, tuple) and v and v[0] == "call" and v[1] == "isinstance" \
+            and v[2][0] == P:
+        s = str(v[2][1])
+        if "Variable" in s and "Subscript" in s:
+            return "leaf"
+        if "CommonSubexpression" in s:
+            return "cse"
+    if isinstance(v, tuple) and v and v[0] == "call" and v[1] == "is_constant" \
+            and v[2] == (P,):
+        return "const"
+    return None
+
+
+def _guard_facts(ps, P):
+    """(kind, polarity) facts a path knows about P; a disjunction of the
+    'stays unwrapped' kinds taken as true is reported as 'leaf-or-const'"""
+    from ..summary import facts_of
+    out = []
+    for _, pol0, v0 in ps.conds:
+        if not isinstance(v0, tuple):
+            continue
+        for v, pol in facts_of(v0, pol0):
+            k = _guard_kind(v, P)
+            if k:
+                out.append((k, pol))
+            elif isinstance(v, tuple) and v and v[0] == "boolop" and \
+                    v[1] == "Or" and pol and all(
+                        _guard_kind(x, P) in ("leaf", "const") for x in v[2]):
+                out.append(("leaf-or-const", True))
+    return out
+
+
 def _wrap_in_cse(ctx, model):
     m, fn = model.func(f"{PRIM}:wrap_in_cse")
     loc = m.loc(fn)
@@ -73,19 +106,24 @@ def _wrap_in_cse(ctx, model):
             ctx.ob("O/wrap_in_cse/falls-off", False, loc,
                    "wrap_in_cse can return None")
             continue
-        is_leaf = is_cse = None
-        for _, pol, v in ps.conds:
-            if isinstance(v, tuple) and v[0] == "call" and v[1] == "isinstance" \
-                    and v[2][0] == P:
-                s = str(v[2][1])
-                if "Variable" in s and "Subscript" in s:
-                    is_leaf = pol
-                elif "CommonSubexpression" in s:
-                    is_cse = pol
+        is_leaf = is_cse = is_const = None
+        for kind_, pol in _guard_facts(ps, P):
+            if kind_ == "leaf":
+                is_leaf = pol
+            elif kind_ == "cse":
+                is_cse = pol
+            elif kind_ == "const":
+                is_const = pol
+            elif kind_ == "leaf-or-const" and pol:
+                # one of the kinds that stay unwrapped, whichever
+                is_leaf = is_leaf if is_leaf is not None else True
+                is_const = True if is_const is None else is_const
         rv = ps.retval
         if rv == P:
             kinds.add("unchanged")
-            ok = is_leaf is True or is_cse is True
+            if is_const is True:
+                kinds.add("constant-unchanged")
+            ok = is_leaf is True or is_cse is True or is_const is True
             ctx.ob("O/wrap_in_cse/unchanged", ok, loc,
                    "variables, subscripts and wrappers are returned as they are"
                    if ok else
@@ -96,6 +134,11 @@ def _wrap_in_cse(ctx, model):
             if arg == P:
                 kinds.add("wrap")
                 ok = is_cse is False and is_leaf is False
+                ctx.ob("O/wrap_in_cse/constants-left-unwrapped", is_const is False,
+                       loc, "a constant is never wrapped" if is_const is False
+                       else "wrap_in_cse puts a wrapper around its argument "
+                       "without having ruled out that it is a constant: "
+                       "wrap_in_cse(5) is CommonSubexpression(5)")
                 ctx.ob("O/wrap_in_cse/wraps-only-non-wrappers", ok, loc,
                        "a new wrapper is put only around a non-wrapper, "
                        "non-variable, non-subscript" if ok else
@@ -139,15 +182,28 @@ def _make_cse(ctx, model):
                             for pol, v in conds)
             const_guard = any(pol and v[0] == "call" and v[1] == "is_constant"
                               and v[2] == (F,) for pol, v in conds)
+            gf = _guard_facts(ps, F)
+            leaf_guard = ("leaf", True) in gf or ("leaf-or-const", True) in gf
+            const_guard = const_guard or ("const", True) in gf
             saw.add("as-is")
             ctx.ob("O/make_common_subexpression/returned-as-is",
-                   cse_guard or const_guard, loc,
-                   "only wrappers and constants are returned unwrapped")
+                   cse_guard or const_guard or leaf_guard, loc,
+                   "only wrappers, constants, variables and subscripts are "
+                   "returned unwrapped")
         elif _is_cse_ctor(rv):
             saw.add("wrap")
-            not_const = any((not pol) and v[0] == "call" and v[1] == "is_constant"
-                            for pol, v in conds)
+            gf = _guard_facts(ps, F)
+            not_const = ("const", False) in gf
             ok = rv[2][0] == F and not_const
+            not_leaf = ("leaf", False) in gf
+            if rv[2][0] == F:
+                ctx.ob("O/make_common_subexpression/variables-left-unwrapped",
+                       not_leaf, loc,
+                       "a variable or subscript is never wrapped" if not_leaf else
+                       "make_common_subexpression puts a wrapper around its "
+                       "argument without having ruled out that it is a variable "
+                       "or subscript: make_common_subexpression(Variable('x')) is "
+                       "CommonSubexpression(x)")
             ctx.ob("O/make_common_subexpression/wraps-non-constants", ok, loc,
                    "a wrapper is put around a non-constant scalar" if ok else
                    "make_common_subexpression wraps a constant or something other "
